@@ -88,3 +88,97 @@ def possibly_undefined(f: Func):
             if hit and not (n.id in defs and not isinstance(n.ast, ast.AugAssign) and n.kind != "for"):
                 out.append((nm, rd))
     return out
+
+
+def _bound_names(fn_node: ast.AST) -> set[str]:
+    """names bound in the function's own scope (not nested scopes): assignments, for/with/except targets, imports,
+    nested def/class names, walrus, parameters"""
+    out = set()
+    a = fn_node.args
+    for x in a.posonlyargs + a.args + a.kwonlyargs:
+        out.add(x.arg)
+    if a.vararg:
+        out.add(a.vararg.arg)
+    if a.kwarg:
+        out.add(a.kwarg.arg)
+    for p in getattr(fn_node, "type_params", []) or []:
+        out.add(p.name)
+    stack = list(fn_node.body)
+    while stack:
+        n = stack.pop()
+        if isinstance(n, (ast.FunctionDef, ast.AsyncFunctionDef, ast.ClassDef)):
+            out.add(n.name)
+            continue
+        if isinstance(n, ast.Lambda):
+            continue
+        if isinstance(n, ast.Name) and isinstance(n.ctx, (ast.Store, ast.Del)):
+            out.add(n.id)
+        elif isinstance(n, ast.ExceptHandler) and n.name:
+            out.add(n.name)
+        elif isinstance(n, ast.alias):
+            out.add((n.asname or n.name).split(".")[0])
+        elif isinstance(n, (ast.ListComp, ast.SetComp, ast.DictComp, ast.GeneratorExp)):
+            # comprehension scope: its targets are not bound outside, but a walrus inside binds in the function
+            for x in ast.walk(n):
+                if isinstance(x, ast.NamedExpr) and isinstance(x.target, ast.Name):
+                    out.add(x.target.id)
+            continue
+        stack.extend(ast.iter_child_nodes(n))
+    return out
+
+
+def undefined_names(f: Func, module_names: set[str]):
+    """[(name, node)]: names read in f (own scope, comprehensions and lambdas included) that are bound nowhere: not in f,
+    not in an enclosing function, not at module level, not a builtin.  Typically the only binding was deleted."""
+    scopes = []
+    g = f
+    while g is not None:
+        scopes.append(_bound_names(g.node))
+        g = g.parent
+    known = set().union(*scopes) | module_names | _BUILTINS
+    if f.cls:
+        known |= {"__class__"}
+    out = []
+
+    def walk(node, local):
+        for n in ast.iter_child_nodes(node):
+            if isinstance(n, (ast.FunctionDef, ast.AsyncFunctionDef, ast.ClassDef)):
+                continue  # nested scopes are analysed as their own Func
+            if isinstance(n, ast.Lambda):
+                la = n.args
+                walk(n, local | {x.arg for x in la.posonlyargs + la.args + la.kwonlyargs} | ({la.vararg.arg} if la.vararg else set()) | ({la.kwarg.arg} if la.kwarg else set()))
+                continue
+            if isinstance(n, (ast.ListComp, ast.SetComp, ast.DictComp, ast.GeneratorExp)):
+                tg = set()
+                for gen in n.generators:
+                    for x in ast.walk(gen.target):
+                        if isinstance(x, ast.Name):
+                            tg.add(x.id)
+                walk(n, local | tg)
+                continue
+            if isinstance(n, ast.Name) and isinstance(n.ctx, ast.Load) and n.id not in known and n.id not in local:
+                out.append((n.id, n))
+            walk(n, local)
+
+    for st in f.node.body:
+        walk(ast.Module(body=[st], type_ignores=[]), set())
+    # decorators / defaults / annotations are evaluated in the enclosing scope: not checked here
+    return out
+
+
+def implicit_none_paths(f: Func):
+    """True if f returns a value on some path and can also run off its end (returning None implicitly)."""
+    rets = [n for n in own_nodes(f.node) if isinstance(n, ast.Return)]
+    ann = f.node.returns
+    promises = ann is not None and ast.unparse(ann) not in ("None", "NoReturn", "Never") and "None" not in ast.unparse(ann)
+    if not promises and not any(r.value is not None and not (isinstance(r.value, ast.Constant) and r.value.value is None) for r in rets):
+        return False
+    if any(d for d in f.node.decorator_list if "abstractmethod" in ast.unparse(d) or "overload" in ast.unparse(d)):
+        return False
+    if any(isinstance(n, (ast.Yield, ast.YieldFrom)) for n in own_nodes(f.node)):
+        return False
+    cfg = cfg_of(f.node)
+    for n in cfg.nodes:
+        if n.kind == "return" and n.note == "implicit-end" and cfg.reachable(n):
+            return True
+    return False
